@@ -24,12 +24,22 @@ thread_local! {
     // how often a handle comparison forwards to the value is part of what a
     // program observes (std forwards unconditionally for the ordering traits)
     static ORD_CALLS: Cell<u32> = const { Cell::new(0) };
+    // calls of the payload's eq (+1, compared for two different allocations only:
+    // std may skip it for one allocation when T: Eq), hash (+100), Display::fmt
+    // (+10_000) and Debug::fmt (+1_000_000)
+    static TRAIT_CALLS: Cell<u32> = const { Cell::new(0) };
 }
 
-fn ord_calls<R>(f: impl FnOnce() -> R) -> (R, u32) {
-    let before = ORD_CALLS.with(|c| c.get());
+fn trait_calls<R>(f: impl FnOnce() -> R) -> (R, u32) {
+    let before = TRAIT_CALLS.with(|c| c.get());
     let r = f();
-    (r, ORD_CALLS.with(|c| c.get()).wrapping_sub(before))
+    (r, TRAIT_CALLS.with(|c| c.get()).wrapping_sub(before))
+}
+
+fn ord_calls<R>(f: impl FnOnce() -> R) -> (R, u32, u32) {
+    let before = ORD_CALLS.with(|c| c.get());
+    let (r, other) = trait_calls(f);
+    (r, ORD_CALLS.with(|c| c.get()).wrapping_sub(before), other)
 }
 
 fn log(s: String) {
@@ -196,6 +206,7 @@ impl<F: Fam> Clone for Val<F> {
 
 impl<F: Fam> PartialEq for Val<F> {
     fn eq(&self, o: &Self) -> bool {
+        TRAIT_CALLS.with(|c| c.set(c.get().wrapping_add(1)));
         self.id / 2 == o.id / 2
     }
 }
@@ -214,16 +225,19 @@ impl<F: Fam> Ord for Val<F> {
 }
 impl<F: Fam> Hash for Val<F> {
     fn hash<H: Hasher>(&self, h: &mut H) {
+        TRAIT_CALLS.with(|c| c.set(c.get().wrapping_add(100)));
         (self.id / 2).hash(h)
     }
 }
 impl<F: Fam> fmt::Display for Val<F> {
     fn fmt(&self, f: &mut fmt::Formatter<'_>) -> fmt::Result {
+        TRAIT_CALLS.with(|c| c.set(c.get().wrapping_add(10_000)));
         write!(f, "V{}", self.id)
     }
 }
 impl<F: Fam> fmt::Debug for Val<F> {
     fn fmt(&self, f: &mut fmt::Formatter<'_>) -> fmt::Result {
+        TRAIT_CALLS.with(|c| c.set(c.get().wrapping_add(1_000_000)));
         write!(f, "Val{{id:{}}}", self.id)
     }
 }
@@ -315,8 +329,10 @@ macro_rules! impl_fam {
                 if $rc::ptr_eq(a, b) {
                     flag(F_CMP_ALIASED);
                 }
+                let eq_calls = if $rc::ptr_eq(a, b) { (0, 0) } else { (trait_calls(|| a == b).1, trait_calls(|| a != b).1) };
                 format!(
-                    "eq={} ne={} lt={:?} le={:?} gt={:?} ge={:?} cmp={:?} pcmp={:?} max_is_b={:?} min_is_a={:?}",
+                    "eqcalls={:?} eq={} ne={} lt={:?} le={:?} gt={:?} ge={:?} cmp={:?} pcmp={:?} max_is_b={:?} min_is_a={:?}",
+                    eq_calls,
                     a == b,
                     a != b,
                     ord_calls(|| a < b),
@@ -800,7 +816,8 @@ fn step<F: Fam>(s: &mut State<F>, op: &POp, i: usize) {
         }
         POp::HashFmt(h) => {
             let k = root!(h);
-            s.obs.push(format!("{}: hash {:x} fmt {}", i, F::hash_r(&s.roots[k]), F::fmt_r(&s.roots[k])));
+            let (txt, calls) = trait_calls(|| format!("hash {:x} fmt {}", F::hash_r(&s.roots[k]), F::fmt_r(&s.roots[k])));
+            s.obs.push(format!("{}: {} payload-trait-calls {}", i, txt, calls));
         }
         POp::WFmt(w) => {
             let k = weak!(w);
